@@ -61,13 +61,17 @@ int main()
       } else if (k == "EE") {
         o = c->isAnchored() ? vec(c->toENU(Eigen::Vector3d(f[0], f[1], f[2]))) : "assert";
       } else if (k == "TE") {
-        o = c->isAnchored() ? vec(c->toECEF(Eigen::Vector3d(f[0], f[1], f[2]))) : "assert";
+        // both public overloads (vector and three scalars) must agree: alternate between them
+        o = !c->isAnchored() ? "assert" :
+          (i % 2 ? vec(c->toECEF(f[0], f[1], f[2])) : vec(c->toECEF(Eigen::Vector3d(f[0], f[1], f[2]))));
       } else if (k == "TW") {
         if (!c->isAnchored()) {
           o = "assert";
         } else {
           GeodeticCoordinates r;
-          bool ok = geoA::guarded([&]() {r = c->toWGS84(Eigen::Vector3d(f[0], f[1], f[2]));});
+          bool ok = geoA::guarded([&]() {
+                r = (i % 2) ? c->toWGS84(f[0], f[1], f[2]) : c->toWGS84(Eigen::Vector3d(f[0], f[1], f[2]));
+              });
           o = ok ? "g " + geoA::join({r.latitude, r.longitude, r.altitude}) : "HANG";
         }
       } else if (k == "RT") {   // to-local after to-ECEF
